@@ -2,6 +2,7 @@ import BppProofs.Lemmas.DiscretizeHistory
 import BppProofs.Lemmas.DiscretizeFamilies
 import BppProofs.Lemmas.DiscretizeFamInst
 import BppProofs.Lemmas.DiscretizeWitness
+import BppProofs.Lemmas.DiscretizeTermination
 /-!
 # C09 — a discretised distribution is a valid partition of its continuous parent
 (src/Bpp/Numeric/Prob/AbstractDiscreteDistribution.{h,cpp} and the families built on it)
@@ -24,8 +25,8 @@ Clause → theorem (equal-probability scheme `discretizeEqualProportions`):
  value_in_own_class_median_partial (median-valued: only when the medians are not rescaled;
  `median_rescaled_outside_class_witness` shows the full clause is false), class_mass (H),
  mean_preserved (H, mean-valued, resolved), mean_preserved_median (rescaled medians).
-Equal-interval scheme: `equal_interval_valid` (all clauses incl. class_mass), dispatch with
-fallback: `discretize_valid`.  Look-ups: `lookup_spec`, `lookup_unique`, `lookup_value`;
+Equal-interval scheme: `equal_interval_partition` (no side condition), `equal_interval_valid` (with
+value_in_own_class and class_mass), dispatch with fallback: `discretize_partition`.  Look-ups: `lookup_spec`, `lookup_unique`, `lookup_value`;
 `cumulative_consistent`; `restrict_domain`; histories: `rediscretize_inv`; families with closed
 forms: `exponential_H`, `truncated_exponential_H`, `uniform_H` and the unconditional
 `exponential_history_valid`, `uniform_history_valid`, `truncated_exponential_history_valid`; compounds: `compound_normalised_*` (BppProofs/Props/C09Compound.lean).
@@ -143,21 +144,52 @@ separation loop is not needed) -/
 theorem resolved_terminates (par : Parent ℝ) (s : DD ℝ) (hs : Pre s) (hr : resolved par s = true) :
     ∃ s', eqProp par s = .ok s' := resolved_exists par s hs.prec_nonneg hr
 
+/-- **discretize_terminates**: with a positive comparator precision (1e-12 for every family, 1e-20 for
+beta) `discretize()` returns with any of the three schemes, for every parent, class count, domain
+and whatever the class values are — the loop of `insertClass_` that separates equal class values
+ends within `6·n + 1` turns: its step is at least the precision, so every key of the map is
+equivalent to at most three candidates on each side (pigeonhole, `blocked_turns_bound`).  The
+model's fuel (`6·size + 10⁶`) is never exhausted: `Err.fuel` is unreachable. -/
+theorem discretize_terminates (par : Parent ℝ) (s : DD ℝ) (hn : 1 ≤ s.n) (hp : 0 < s.prec) :
+    ∃ s', discretize par s = .ok s' := discretize_total par s hn hp
+
+/-- the hypothesis `0 < precision` is needed: with precision 0 and a class value 0 that is already
+a key the step `max(precision, 4·ε·|v|)` is 0, every candidate is the value itself and the loop
+never ends, whatever the fuel.  (Not reachable through the shipped families, whose precision is
+positive; `AbstractDiscreteDistribution(n, 0., …)` is a protected constructor.) -/
+theorem separation_zero_step_loops (hi : ℝ) (m : TMap ℝ) (h : (TMap.find? 0 0 m).isSome = true) (fuel : Nat) (j f : Int) :
+    searchFree 0 (sepStep 0 0) hi 0 m fuel j f = none := searchFree_zero_step hi m h fuel j f
+
 /-! ## equal-interval scheme -/
 
+/-- **equal_interval_partition**: after `discretizeEqualIntervals` (repaired: class values kept
+distinct by `insertClass_`, equal probabilities on a domain without mass) the object has exactly
+`n` classes with non-negative probabilities summing to one, non-decreasing bounds inside the
+domain and strictly increasing class values — for *every* class count, precision and ordered
+domain, and every parent with non-decreasing `pProb`; no side condition on the width of the
+classes or on the mass of the domain is left. -/
+theorem equal_interval_partition (par : Parent ℝ) (s r : DD ℝ) (hs : Pre s)
+    (hmono : ∀ x y, s.dom.lo ≤ x → x ≤ y → y ≤ s.dom.hi → par.P x ≤ par.P y)
+    (h : eqInt par s = .ok r) :
+    nClassesOk r = true ∧ probsNonneg r = true ∧ probsSumOne 0 r = true ∧
+    boundsMonoInDom r = true ∧ valuesStrictMono r = true := by
+  obtain ⟨a, b, c, d, e, _⟩ := eqInt_partition par s r hs.n_pos hs.prec_nonneg hs.dom_ordered hmono h
+  exact ⟨a, b, c, d, e⟩
+
 /-- all clauses for `discretizeEqualIntervals`, for classes wider than the comparator precision
-and a parent with non-decreasing `pProb` and mass on the domain; the last conjunct is
-**class_mass**: `pᵢ · (P upper − P lower) = P(b_{i+1}) − P(b_i)`. -/
+and a parent with non-decreasing `pProb` and mass on the domain: it returns, every class value
+lies in its own class, and — **class_mass** — `pᵢ · (P upper − P lower) = P(b_{i+1}) − P(b_i)`. -/
 theorem equal_interval_valid (par : Parent ℝ) (s : DD ℝ) (hs : Pre s)
     (hw : s.prec < (s.dom.hi - s.dom.lo) / (s.n : ℝ))
     (hmono : ∀ x y, s.dom.lo ≤ x → x ≤ y → y ≤ s.dom.hi → par.P x ≤ par.P y)
     (hcond : par.P s.dom.lo < par.P s.dom.hi) :
-    nClassesOk (eqInt par s) = true ∧ probsNonneg (eqInt par s) = true ∧ probsSumOne 0 (eqInt par s) = true ∧
-    boundsMonoInDom (eqInt par s) = true ∧ valuesStrictMono (eqInt par s) = true ∧ valuesInClass (eqInt par s) = true ∧
-    (∀ pm ∈ (eqInt par s).probs.zip (pairs (eqInt par s).allBounds),
+    ∃ r, eqInt par s = .ok r ∧
+    nClassesOk r = true ∧ probsNonneg r = true ∧ probsSumOne 0 r = true ∧
+    boundsMonoInDom r = true ∧ valuesStrictMono r = true ∧ valuesInClass r = true ∧
+    (∀ pm ∈ r.probs.zip (pairs r.allBounds),
         pm.1 * (par.P s.dom.hi - par.P s.dom.lo) = par.P pm.2.2 - par.P pm.2.1) := by
-  obtain ⟨a, b, c, d, e, f, g, _⟩ := eqInt_valid par s hs.n_pos hs.prec_nonneg hw hmono hcond
-  exact ⟨a, b, c, d, e, f, g⟩
+  obtain ⟨r, hr, a, b, c, d, e, f, g, _⟩ := eqInt_valid par s hs.n_pos hs.prec_nonneg hw hmono hcond
+  exact ⟨r, hr, a, b, c, d, e, f, g⟩
 
 
 /-! ## median-valued classes -/
@@ -196,6 +228,26 @@ theorem median_rescaled_outside_class_witness :
      | .error _ => false) = true := by
   constructor <;> decide +kernel
 
+/-- why the finding is kept: a rescaling of the medians by a *common* factor that preserves the
+parent's mean `M` (what the documentation of `setMedian` promises) has no freedom left — the
+factor is `M · n / Σ medians`, the one the code uses (`mean / t / ec`).  The witness above shows that
+this factor moves class values out of their classes; so no repair within "common factor + mean
+preserved" exists, and clamping the values into their classes would give up the mean. -/
+theorem median_common_factor_unique (ms : List ℝ) (c M : ℝ) (hn : 0 < ms.length) (ht : ms.sum ≠ 0) :
+    (ms.map (fun m => (1 / (ms.length : ℝ)) * (c * m))).sum = M ↔ c = M * ms.length / ms.sum := by
+  have hn' : (0 : ℝ) < ms.length := by exact_mod_cast hn
+  have e : (ms.map (fun m => (1 / (ms.length : ℝ)) * (c * m))).sum = (1 / (ms.length : ℝ)) * c * ms.sum := by
+    have : (fun m : ℝ => (1 / (ms.length : ℝ)) * (c * m)) = (fun m => ((1 / (ms.length : ℝ)) * c) * m) := by
+      funext m; ring
+    rw [this, sum_map_mul_left]
+  rw [e]
+  constructor
+  · intro h
+    field_simp at h ⊢
+    linarith
+  · intro h
+    rw [h]; field_simp
+
 /-- **mean_preserved**, median-valued classes: when the medians are rescaled the discrete mean is
 the parent's mean over the domain, for every parent -/
 theorem mean_preserved_median (par : Parent ℝ) (s s' : DD ℝ) (hs : Pre s)
@@ -211,16 +263,16 @@ theorem mean_preserved_median (par : Parent ℝ) (s s' : DD ℝ) (hs : Pre s)
 /-- `discretize()` with any of the three schemes yields a valid partition (`Valid`: n classes,
 non-negative probabilities summing to one, non-decreasing bounds inside the domain, strictly
 increasing class values in comparator order) and leaves class count, domain, precision, median
-flag and scheme as they were.  `IntOK` (classes wider than the precision, mass on the domain) is
-asked only when the scheme is not EQUAL_PROB. -/
+flag and scheme as they were — for every parent satisfying `H`, whatever the scheme. -/
 theorem discretize_partition (par : Parent ℝ) (s s' : DD ℝ) (hs : Pre s) (H : ParentOK par s.dom.lo s.dom.hi)
-    (hi : IntOK par s) (h : discretize par s = .ok s') : Valid s' ∧ SameCfg s s' :=
-  discretize_valid par s s' hs H hi h
+    (h : discretize par s = .ok s') : Valid s' ∧ SameCfg s s' :=
+  discretize_valid par s s' hs H h
 
-/-- EQUAL_PROB_WHEN_POSSIBLE: the result never has two equal neighbouring bounds — either the
-equal-probability bounds are pairwise distinct, or the equal-interval scheme took over -/
+/-- EQUAL_PROB_WHEN_POSSIBLE on a domain that is not a single point: the result never has two
+equal neighbouring bounds — either the equal-probability bounds are pairwise distinct, or the
+equal-interval scheme took over -/
 theorem when_possible_distinct_bounds (par : Parent ℝ) (s s' : DD ℝ) (hs : Pre s) (hsch : s.scheme = 3)
-    (hi : IntOK par s) (h : discretize par s = .ok s') : hasEqualNeighbours s'.allBounds = false := by
+    (hlt : s.dom.lo < s.dom.hi) (h : discretize par s = .ok s') : hasEqualNeighbours s'.allBounds = false := by
   unfold discretize at h
   have hn0 : (s.n == 0) = false := by have := hs.n_pos; simp; omega
   simp only [hn0, Bool.false_eq_true, if_false, hsch] at h
@@ -233,12 +285,15 @@ theorem when_possible_distinct_bounds (par : Parent ℝ) (s s' : DD ℝ) (hs : P
     simp only [he, bind, Except.bind] at h
     obtain ⟨_, _, _, _, e5, e6, e7, _, _⟩ := eqProp_map par s s1 hs.n_pos hs.prec_nonneg he
     split at h
-    · injection h with h; subst h
-      have hI := hi (by rw [hsch]; decide)
-      have hw : s1.prec < (s1.dom.hi - s1.dom.lo) / (s1.n : ℝ) := by rw [e5, e6, e7]; exact hI.1
-      obtain ⟨hall, _⟩ := eqInt_spec par s1 (by rw [e5]; exact hs.n_pos) (by rw [e7]; exact hs.prec_nonneg) hw
-      rw [hall]
-      have hwpos : 0 < (s1.dom.hi - s1.dom.lo) / (s1.n : ℝ) := lt_of_le_of_lt (by rw [e7]; exact hs.prec_nonneg) hw
+    · obtain ⟨m, _, hs'⟩ := eqInt_ok par s1 s' h
+      have hn1 : 1 ≤ s1.n := by rw [e5]; exact hs.n_pos
+      have hall := (eqInt_lists par s1 hn1).1
+      have hb : s'.allBounds = (List.range' 0 (s1.n + 1)).map (fun i : ℕ => s1.dom.lo + (i : ℝ) * ((s1.dom.hi - s1.dom.lo) / (s1.n : ℝ))) := by
+        rw [hs']; simpa [DD.allBounds] using hall
+      rw [hb]
+      have hn' : (0 : ℝ) < s1.n := by exact_mod_cast hn1
+      have hwpos : 0 < (s1.dom.hi - s1.dom.lo) / (s1.n : ℝ) := by
+        apply div_pos _ hn'; rw [e6]; linarith
       -- strictly increasing: no equal neighbours
       have hchain : ((List.range' 0 (s1.n + 1)).map (fun i : ℕ => s1.dom.lo + (i : ℝ) * ((s1.dom.hi - s1.dom.lo) / (s1.n : ℝ)))).IsChain (· < ·) := by
         apply List.Pairwise.isChain
@@ -370,27 +425,6 @@ theorem rediscretize_inv (st st' : MSt) (ops : List Op) (hg : Good st) (ha : All
     (h : run st ops = .ok st') : Good st' :=
   run_good st st' ops hg ha h
 
-/-- for the EQUAL_PROB scheme admissibility only asks for positive class counts and for `H` of the
-parents brought by updates -/
-theorem adm_equal_prob (st : MSt) (op : Op) (hsch : st.2.scheme = 1)
-    (h : match op with
-      | .setN n => 1 ≤ n
-      | .update par dom => dom.lo ≤ dom.hi ∧ ParentOK par dom.lo dom.hi
-      | _ => True) : Adm st op := by
-  refine ⟨h, ?_⟩
-  intro p s0 ht hne
-  exfalso; apply hne
-  cases op with
-  | setN n => simp only [target] at ht; injection ht with ht; split at ht <;> simp at ht; rw [← ht.2]; exact hsch
-  | setMedian b => simp only [target] at ht; injection ht with ht; split at ht <;> simp at ht; rw [← ht.2]; exact hsch
-  | restrict c =>
-    simp only [target] at ht
-    split at ht <;> simp at ht
-    rw [← ht.2]; exact hsch
-  | update par dom => simp only [target] at ht; simp at ht; rw [← ht.2]; exact hsch
-  | rediscretize => simp only [target] at ht; simp at ht; subst ht; exact hsch
-
-
 /-! ## families whose parent has closed forms: `H` is proved, the instances are unconditional -/
 
 /-- **exponential_H**: the transcribed `pProb`, `qProb`, `Expectation` of
@@ -459,12 +493,22 @@ example :
 
 /-- the equal-interval scheme and the scheme with fallback on the uniform parent, 5 classes -/
 example :
-    (let s := eqInt Witness.unif01 (Witness.unifState 5 false 2)
-     nClassesOk s && probsNonneg s && probsSumOne 0 s && boundsMonoInDom s && valuesStrictMono s && valuesInClass s) = true ∧
+    (match eqInt Witness.unif01 (Witness.unifState 5 false 2) with
+     | .ok s => nClassesOk s && probsNonneg s && probsSumOne 0 s && boundsMonoInDom s && valuesStrictMono s && valuesInClass s
+     | .error _ => false) = true ∧
     (match discretize Witness.unif01 (Witness.unifState 5 true 3) with
      | .ok s => nClassesOk s && probsSumOne 0 s && valuesInClass s && (s.cats == [1/10, 3/10, 1/2, 7/10, 9/10])
      | .error _ => false) = true := by
   constructor <;> decide +kernel
+
+/-- the equal-interval scheme on a one-point domain (no width, no mass — the former known finding
+C09-equal-interval-no-width): three classes of probability 1/3 at distinct values -/
+example :
+    (match eqInt Witness.unif01 { Witness.unifState 3 false 2 with dom := ⟨1/5, 1/5, true, true, 0⟩ } with
+     | .ok s => nClassesOk s && probsNonneg s && probsSumOne 0 s && boundsMonoInDom s && valuesStrictMono s &&
+         (s.probs == [1/3, 1/3, 1/3])
+     | .error _ => false) = true := by
+  decide +kernel
 
 /-- `H` is satisfiable: the uniform parent on `[0,1]`, the exponential parent on `[0,5]` -/
 example : ParentOK (unifParent 0 1) 0 1 ∧ ParentOK (expParent 2) 0 5 :=
